@@ -3,7 +3,7 @@ from __future__ import annotations
 from ..model import load_model
 from ..evalengine import pmap
 from ..simpengine import (rule_inputs, variable_free_inputs, reduce_trace, compare_trees, SIGN_REGIONS,
-                          FINE_REGIONS)
+                          FINE_REGIONS, random_trees, deep_pattern_sites)
 from .. import spec
 
 
@@ -35,6 +35,69 @@ def pattern_class(tree) -> str:
     return one(tree, 0)
 
 
+def redex(a, b, ia, ib, who: str):
+    """The pair of sub-trees (before, after) the step rewrote, with their identity skeletons: walk
+    down while exactly one child differs, and take the deepest node on that path whose class is the
+    class of the reducer that fired (for the constant fold: the deepest node replaced by a
+    Constant).  Evaluation is strict and eager in every child (C02.eager), so every context is
+    monotone for 'defined, with the same value': soundness of the step is soundness of this pair."""
+    owner = who.split(".")[0]
+    is_fold = who.endswith("_consolidate_expression_lacking_variables")
+    if who in ("normal-form pass", "driver", "input"):
+        return a, b, ia, ib
+    best = (a, b, ia, ib)
+    while True:
+        if is_fold:
+            if b[0] in ("Constant", "ConstantSym") and a[0] not in ("Constant", "ConstantSym"):
+                best = (a, b, ia, ib)
+        elif a[0] == owner:
+            best = (a, b, ia, ib)
+        if a[0] != b[0] or a[0] in spec.LEAF or a[0] == "ConstantSym":
+            break
+        ka, kb = spec.children(a), spec.children(b)
+        if len(ka) != len(kb) or (a[0] not in spec.NARY and a[1 + len(ka):] != b[1 + len(kb):]):
+            break
+        diff = [i for i, (x, y) in enumerate(zip(ka, kb)) if x != y]
+        if len(diff) != 1 or len(ia[1]) != len(ka) or len(ib[1]) != len(kb):
+            break
+        a, b, ia, ib = ka[diff[0]], kb[diff[0]], ia[1][diff[0]], ib[1][diff[0]]
+    return best
+
+
+def generalise(a, b, ia, ib):
+    """Replace every compound grandchild *object* of the rewritten sub-tree by a fresh variable, in
+    both sides, matching by object identity: reducers inspect the classes of direct children only
+    (C08.pattern-depth) and copy grandchildren by reference, so the pair with variables is the rule
+    instance the step is an instance of -- with plain variables whose sign regions can be enumerated."""
+    table = {}
+
+    def collect(t, ids, depth):
+        for c, ci in zip(spec.children(t), ids[1]):
+            if depth + 1 >= 2:
+                if c[0] not in spec.LEAF and c[0] != "ConstantSym" and spec.variables(c) and ci[0]:
+                    table.setdefault(ci[0], ("Variable", f"g{len(table)}"))
+            else:
+                collect(c, ci, depth + 1)
+    if len(ia[1]) != len(spec.children(a)):
+        return a, b
+    collect(a, ia, 0)
+    if not table:
+        return a, b
+
+    def subst(t, ids):
+        if ids[0] in table:
+            return table[ids[0]]
+        if t[0] in spec.LEAF or t[0] == "ConstantSym":
+            return t
+        kids = spec.children(t)
+        kid_ids = ids[1] if len(ids[1]) == len(kids) else [(0, [])] * len(kids)
+        if t[0] in spec.NARY:
+            return (t[0], [subst(c, ci) for c, ci in zip(kids, kid_ids)])
+        n = len(kids)
+        return (t[0],) + tuple(subst(c, ci) for c, ci in zip(kids, kid_ids)) + tuple(t[1 + n:])
+    return subst(a, ia), subst(b, ib)
+
+
 def simp_case(args):
     tree, label, tier = args
     tr = reduce_trace((tree, 80))
@@ -46,14 +109,23 @@ def simp_case(args):
     regions = SIGN_REGIONS if (tier == "quick" or len(spec.variables(tree)) > 3) else FINE_REGIONS
     out["n_steps"] = len(seq) - 1
     out["warnings"] = tr["warnings"]
-    for (who0, a, ra), (who, b, rb) in zip(seq, seq[1:]):
+    for e0, e1 in zip(seq, seq[1:]):
+        (who0, a, ra, ia), (who, b, rb, ib) = e0[:4], e1[:4]
+        if len(e1) > 4 and e1[4] is not None:
+            ia = e1[4]       # identities of the form right before this step (flag-only steps rebuild parents)
         if b is None:
             out["steps"].append({"who": who, "problems": [{"kind": "no-termination-within-analysis-budget"}],
                                  "from": ra, "to": None, "n": 0, "pattern": pattern_class(a)})
             break
-        problems, n = compare_trees(a, b, regions)
+        sa, sb, sia, sib = redex(a, b, ia, ib, who)
+        ga, gb = generalise(sa, sb, sia, sib) if who.split(".")[-1].startswith("_reduce") else (sa, sb)
+        nv = len(spec.variables(ga))
+        problems, n = compare_trees(ga, gb, FINE_REGIONS if (tier != "quick" and nv <= 2) else SIGN_REGIONS)
+        if (ga, gb) != (a, b):
+            for p in problems:
+                p["at"] = f"{p.get('at', '')} for the rule instance {spec.show(ga)} -> {spec.show(gb)}"
         out["steps"].append({"who": who, "from": ra, "to": rb, "problems": problems, "n": n,
-                             "pattern": pattern_class(a)})
+                             "pattern": pattern_class(sa)})
     # end to end, and the public pipeline must give the same result as the step-wise drive
     if seq[-1][1] is not None:
         problems, n = compare_trees(seq[0][1], seq[-1][1], regions)
@@ -67,6 +139,8 @@ def check(rep):
     model = load_model()
     tier = rep.tier
     inputs = rule_inputs(model, tier) + variable_free_inputs(model)
+    if tier != "quick":
+        inputs += random_trees(rep.seed, 400, 40)
     results = pmap(simp_case, [(t, l, tier) for (t, l) in inputs], chunksize=8)
     fired = {}
     per_label = {}
@@ -102,7 +176,7 @@ def check(rep):
                           "value-differs": f"has a different value at {{{p.get('at')}}}: {p['detail']}",
                           "new-variable": f"mentions new variable(s) {p['detail']}"}[p["kind"]])
                 rep.violation("C08.rule", who, where, msg, witness={"step": st, "input": out["tree"]},
-                              witness_class=f"{p['kind']} {st['pattern']} [{p.get('region', '')}]")
+                              witness_class=f"{p['kind']} {st['pattern']}")
         end = out.get("end")
         if end:
             for p in end["problems"]:
@@ -137,6 +211,13 @@ def check(rep):
                         "no enumerated input made this reducer fire: its soundness was not examined")
         else:
             rep.ok("C08.coverage", q, model.functions[q].where, f"fired on {fired[q]} enumerated inputs", nontrivial=False)
+    for fi, ln, path in deep_pattern_sites(model):
+        rep.unknown("C08.pattern-depth", fi.qualname, f"{fi.module.rel}:{ln}",
+                    f"the reducer inspects the class of {path}, deeper than the enumerated rule inputs "
+                    f"(children of children are plain variables there): not covered")
+    rep.ok("C08.pattern-depth", "all reducers", "", "every reducer inspects classes of direct children only, so a "
+           "variable in a grandchild position stands for an arbitrary sub-expression", nontrivial=False) \
+        if not deep_pattern_sites(model) else None
     rep.extra["reducers_fired"] = dict(sorted(fired.items()))
     rep.extra["inputs"] = len(inputs)
     for i in (5, len(inputs) // 2, len(inputs) - 3):
